@@ -43,6 +43,21 @@ CHECKS = {
  "C12": dict(category="model_checking", technique="same exhaustive byte-stream enumeration as C11, invariant on tokens and buffer counters at quiescence",
    text="The same scripts and delivery variants as C11 (values on both sides of body_c_str=64 and of the compression threshold); after each run and a forced flush the invariant is evaluated: all request tokens returned and GetData, SetData, FlushData, AllocRL count = size = 0; blocking on the token channel is detected structurally; freed C buffers are poisoned (MALLOC_PERTURB_) so that use-after-free shows as wrong reply bytes and double free aborts the worker.",
    note="Connections are served one after the other. Four leak defects found here were repaired (fix: 3cebae9, 35abb36, 982f0fa, 9c75ee9).", design="4/C12"),
+ "C09": dict(category="fault_enumeration", technique="exhaustive single-fault enumeration over record files against an independent encoder/decoder",
+   text="Records over the full product of key lengths {1,2,250} and value lengths around the 256-block boundaries (and 4 KB) with extreme flag/version/timestamp values are written with the repository's writer into files of 1..4 records; bytes must equal an independent reference encoder (own layout code, Go hash/crc32). Every byte x {flip bit 0, flip bit 7, 0x00, 0xff}, every subset of zeroed 256-byte blocks, every truncation length and 9 extreme values of every size field are applied; a positional read must return the original record or an error, a scan only original records at their offsets and every intact record before / after the damaged blocks.",
+   note="Single damaged region per file (plus block subsets). The scan-abort defect found here was repaired (fix: a9098de).", design="4/C09"),
+ "C10": dict(category="exploration", technique="bounded-exhaustive input grid through every storage location + exhaustive small hostile inputs in a sacrificial subprocess",
+   text="8 content shapes x 15 sizes around the decision thresholds (record 256, probe 10 KB, ratio band, 64 KB, 1 MB+1) x 3 client flags, each read back byte-exact (get, ?key value hash, @ listing) from write buffer, flushed file, after restart with hints, after hint rebuild from data and after a relocating GC pass; stored records inspected with an independent decoder; C<->Go cross decompression; the safe decompressors are fed all strings <= 2 bytes, all size-consistent forged headers x payloads <= 3 bytes over 7 byte values and every single-byte substitution of four valid streams in a subprocess whose death or hang is the verdict.",
+   note="Input-grid enumeration (degenerate, stateless form of the technique). Forged headers declaring > 1 MB are not enumerated. The unsafe C decompressor was repaired (fix: 9e16269).", design="4/C10"),
+ "C14": dict(category="model_checking", technique="bounded-exhaustive small-scope enumeration of hint-file contents, in-package, against sorted-slice/map reference",
+   text="Every choice of at most 4 (thorough 5) (item,file) pairs from 8 items (extreme hashes, same-hash groups, 255-byte key, a tombstone) x 3 source files (one possibly empty) x 3 index intervals: writer->reader round trip, total lookup of present and 9 kinds of absent keys (never an error), merge result per key = greatest (file,offset), sorted, collisions reported exactly; plus n in {0,1,4095,4096,4097,5000} with an index entry per item and HintBuffer.Dump order.",
+   note="Key lengths 1/3/255 only. Two defects found here were repaired (fix: 131a428, 91f8ccd).", design="4/C14"),
+ "C15": dict(category="exploration", technique="bounded-exhaustive configuration grid with directory inventory and listing aggregation oracle",
+   text="Bucket counts 1/16/256 x served patterns (none, all, each single bucket, complements, all subsets of the corner buckets) x two keys per bucket found under the real hash: set/get/incr/delete through the protocol; served => stored, unserved => miss; per-bucket and upper-level listings recomputed from the served roots; after shutdown files exist only under served bucket directories and an independent scan finds only keys belonging to that bucket.",
+   note="Input/configuration grid (stateless form of the technique). The fold used above bucket level is taken from the implementation.", design="4/C15"),
+ "C16": dict(category="exploration", technique="bounded-exhaustive comparison with independently written reference functions",
+   text="All byte strings of length <= 2 and every length 0..4096 x 6 fills for key hash, value hash and both FNV copies; CRC over lengths 0..600 and around every power of two up to 2^20, fed in 1-3 pieces, against signed-byte FNV-1a, MurmurHash3-x86-32 written from the published algorithm, beansdb's gen_hash rule and Go's hash/crc32.",
+   note="Nothing is claimed beyond the stated input bounds.", design="4/C16"),
 }
 
 NOT_APPLICABLE = []
